@@ -659,7 +659,7 @@ func (c *client) handlePrepare(raw *frame.RawFrame, msg *message.Prepare, body *
 		} else {
 			switch s := stmt.(type) {
 			case *parser.SelectStatement:
-				if systemColumns, ok := parser.SystemColumnsByName[s.Table]; ok {
+				if systemColumns, ok := c.systemColumns(s.Table); ok {
 					if columns, err := parser.FilterColumns(s, systemColumns); err != nil {
 						c.send(hdr, &message.Invalid{ErrorMessage: err.Error()})
 					} else {
@@ -691,6 +691,20 @@ func (c *client) handlePrepare(raw *frame.RawFrame, msg *message.Prepare, body *
 		_, isSelect := stmt.(*parser.SelectStatement)
 		c.execute(raw, isIdempotent, isSelect, keyspace, body) // Prepared statements can be retried themselves
 	}
+}
+
+// systemColumns returns the columns advertised for a system table (these are the same columns used to answer the query).
+func (c *client) systemColumns(table string) (columns []*message.ColumnMetadata, ok bool) {
+	if len(c.proxy.cluster.Info.DSEVersion) > 0 {
+		switch table {
+		case "local":
+			return parser.DseSystemLocalColumns, true
+		case "peers":
+			return parser.DseSystemPeersColumns, true
+		}
+	}
+	columns, ok = parser.SystemColumnsByName[table]
+	return columns, ok
 }
 
 func (c *client) handleExecute(raw *frame.RawFrame, msg *codecs.PartialExecute, body *frame.Body) {
